@@ -34,6 +34,13 @@ class Obligation:
         self.detail = None
 
 
+class PrefixStop(Exception):
+    """the verified prefix of the function ends here (prefix contracts)"""
+
+    def __init__(self, env):
+        self.env = env
+
+
 class _Break(Exception):
     pass
 
@@ -353,9 +360,14 @@ class Interp:
         if self.world.is_numba(pyfn, fd):
             self.ctx.safety = True
         self.ctx.depth += 1
+        stop = self.ctx.opts.get('stop_before') if self.ctx.depth == 1 else None
         try:
             for st in fd.body:
+                if stop is not None and ast.unparse(st).replace('\n', ' ').startswith(stop):
+                    raise PrefixStop(fr.env)
                 fr.stmt(st)
+            if stop is not None:
+                raise Unsupported("prefix anchor %r not found in %s" % (stop, qualname))
             return None
         except _Return as r:
             return r.v
@@ -1077,10 +1089,16 @@ class Frame:
 
     def ev_Compare(self, e):
         l = self.ev(e.left)
-        res = True
+        res = None
         for op, c in zip(e.ops, e.comparators):
             r = self.ev(c)
-            res = And(res, self.compare(op, l, r))
+            v = self.compare(op, l, r)
+            if res is None:
+                res = v
+            elif isinstance(res, Tn) or isinstance(v, Tn):
+                raise Unsupported("chained comparison of tensors")
+            else:
+                res = And(res, v)
             l = r
         return res
 
